@@ -27,8 +27,11 @@ SameOutcome(a, b, up) ==        \* two calls end alike (products equal as circle
 \* piece j of the formula comes from input x = Src(j): fragment [cutA, cutA + Len) of x
 Offsets(pieces) == [j \in 1..Len(pieces) |-> SumSeq([i \in 1..(j - 1) |-> Len(pieces[i])])]
 Inside(f, a, nx, Lp) == \A p \in Positions(f) : ((p - a) % nx) < Lp
+\* (an unstranded part has no reading direction: its positions are listed in ascending order, as the projection lists them)
+AscSeq(S) == LET RECURSIVE f(_) f(T) == IF T = {} THEN << >> ELSE <<Min(T)>> \o f(T \ {Min(T)}) IN f(S)
 CanonPart(n, p) ==
   IF Len(p.idx) = n THEN [st |-> p.st, idx |-> IF p.st = -1 THEN [i \in 1..n |-> n - i] ELSE [i \in 1..n |-> i - 1]]
+  ELSE IF p.st = 0 THEN [st |-> 0, idx |-> AscSeq({p.idx[i] : i \in 1..Len(p.idx)})]
   ELSE p
 MapPart(p, a, nx, off, k, P) ==
   LET m(q) == (off + ((q - a) % nx) + k) % P
